@@ -288,7 +288,17 @@ func (f *Filter) clonedResult(req *dns.Msg, r internal.Result) (clone internal.R
 	case nil:
 		return nil
 	case *internal.ResultModifiedRequest:
-		return r.Clone(f.cloner)
+		// Make the modified request out of the current one, just like
+		// [Filter.filteredResult] does, since the cached one carries the
+		// flags and the EDNS data of the request that it was created for.
+		modReq := f.cloner.Clone(req)
+		modReq.Question[0].Name = r.Msg.Question[0].Name
+
+		return &internal.ResultModifiedRequest{
+			Msg:  modReq,
+			List: r.List,
+			Rule: r.Rule,
+		}
 	case *internal.ResultModifiedResponse:
 		return r.CloneForReq(f.cloner, req)
 	default:
